@@ -152,12 +152,17 @@ def execute(FallbackClient, n, hits, op, variant, reuse=(None, None), typed=None
     fc, caches = reuse
     if fc is None:
         caches = [make_cache(i + 1, hits[i], log, variant + i, expect) for i in range(n)]
-        if variant % 3 == 0 and n > 1:
-            # the caller re-orders the caches after construction: the configured order is fc.caches as it stands
-            fc = FallbackClient(list(reversed(caches)))
-            fc.caches = caches if variant % 2 else list(caches)
-        else:
-            fc = FallbackClient(caches)
+        try:
+            if variant % 3 == 0 and n > 1:
+                # the caller re-orders the caches after construction: the configured order is fc.caches as it stands
+                fc = FallbackClient(list(reversed(caches)))
+                fc.caches = caches if variant % 2 else list(caches)
+            else:
+                fc = FallbackClient(caches)
+        except Exception:   # noqa -- a non-empty list of caches is refused: an outcome (nothing was applied, nothing answered)
+            kind0 = "read1" if op in READ1 else "readN" if op in READN else "write"
+            return {"h": {"n": n}, "ev": [{"e": "begin", "op": op, "kind": kind0}, {"e": "ret", "src": -1, "empty": False}],
+                    "variant": variant, "op": op, "hits": hits, "fc": None, "caches": None}
     else:
         for c in caches:
             c.rebind(log, expect)
